@@ -604,7 +604,8 @@ def check(run):
                 "orthogonal tangent-space projection of -iH psi at bond limits 1,2,3, real / imaginary time, norm 1 and 0.6; distinct = (model, size, scheme, solver, |H|dt, clause)")
     run.sample({"model": "holstein", "nsites": 4, "method": "tdvp_ps", "ivp_solver": "RK45", "|H|dt": 1.0,
                 "contract": "|psi - expm(-iHt) psi0| <= 40 n (ivp_rtol |psi| + ivp_atol)  (exactness of projector splitting at full bond dimension)"})
-    run.explanation = ("bounded only: every bound is derived from a theorem about the scheme (Taylor remainder, stage polynomial with the coefficients certified in C19, "
+    run.explanation = ("Decided exactly (Engine S): one step of every propagation-and-compression scheme is its stage polynomial; TDVP-PS / PS2 pose exactly the local problems "
+                       "of the projector-splitting integrator (call by contract at the local propagator). Bounded: every accuracy bound is derived from a theorem about the scheme (Taylor remainder, stage polynomial with the coefficients certified in C19, "
                        "exactness of PS/VMF on the full manifold, second order of CMF), not tuned; floating-point convergence cannot be proved by the VC generator.")
     run.trusted += ["scipy.linalg.expm on the dense Hamiltonian", "cited lemmas: Taylor remainder, exactness of the projector-splitting integrator at full rank, Butcher's theorem",
                     "cited lemma (Lubich-Oseledets 2014 / Haegeman et al. 2016): the composition of the exact flows of the projected one-site (two-site) problems forward and the "
